@@ -76,6 +76,22 @@ type run struct {
 	done    int // worker tasks finished
 	ntasks  int
 	direct  bool // workers call the *server.Server directly and a task shuts it down mid-run
+	refsA   int  // client mode: references to server A the harness has not given back yet
+}
+
+// dropRefA is called right before a reference to server A is released: the release of the last one
+// begins A's shutdown, and from then on cancelling running calls is the server's job, not the janitor's.
+func (r *run) dropRefA() {
+	if r.direct {
+		return
+	}
+	r.refsA--
+	if r.refsA == 0 {
+		r.srv[0].shutBegan = true
+		if r.srv[0].running > 0 {
+			r.s.Probe("last_release_with_running_calls")
+		}
+	}
 }
 
 type shutdowner struct {
@@ -481,6 +497,7 @@ func (Engine) Run(t *testing.T, tape *simrt.Tape, opt worker.Options) *worker.Ou
 		r.clientB = capnp.NewClient(mk(1))
 		r.clientC = capnp.NewClient(mk(2))
 		r.ntasks = 1 + s.Choice("ntasks", 4)
+		r.refsA = r.ntasks + 1
 		totalOps := 0
 		for i := 0; i < r.ntasks; i++ {
 			i := i
@@ -488,7 +505,7 @@ func (Engine) Run(t *testing.T, tape *simrt.Tape, opt worker.Options) *worker.Ou
 			nops := 2 + s.Choice("nops", 8)
 			totalOps += nops
 			s.Spawn(fmt.Sprintf("w%d", i), func() {
-				tg := target{send: c.SendCall, recv: c.RecvCall, release: c.Release}
+				tg := target{send: c.SendCall, recv: c.RecvCall, release: func() { r.dropRefA(); c.Release() }}
 				if r.direct {
 					// the handle is given back at once: calls go to the Server itself
 					c.Release()
@@ -534,6 +551,7 @@ func (Engine) Run(t *testing.T, tape *simrt.Tape, opt worker.Options) *worker.Ou
 		}
 		if mode == 0 {
 			simrt.YieldAt("main")
+			r.dropRefA()
 			rootA.Release()
 			rootA = nil
 		}
@@ -542,6 +560,7 @@ func (Engine) Run(t *testing.T, tape *simrt.Tape, opt worker.Options) *worker.Ou
 			return
 		}
 		if rootA != nil && !r.direct {
+			r.dropRefA()
 			rootA.Release()
 		}
 		// B may still be referenced by result messages that were released; drop our reference last
@@ -574,7 +593,8 @@ func (Engine) Run(t *testing.T, tape *simrt.Tape, opt worker.Options) *worker.Ou
 		// implementation's context (only those), oldest first.
 		for id := 1; id <= r.nextID; id++ {
 			cm := r.calls[id]
-			if cm != nil && cm.waitingCtx && !cm.cancelled {
+			if cm != nil && cm.waitingCtx && !cm.cancelled && !r.srv[cm.srv].shutBegan {
+				// (once a server's shutdown has begun, cancelling its running calls is the server's job)
 				cm.cancelled = true
 				cm.cancel()
 				s.Fault("janitor_cancel")
